@@ -14,7 +14,10 @@
 (*             wrote), post (longest post-handshake server sequence, 0:    *)
 (*             none), focus (0, or an extension type: only the nodes of    *)
 (*             that extension are mutated - a further server              *)
-(*             configuration for a flight that was already mutated fully)] *)
+(*             configuration for a flight that was already mutated fully), *)
+(*             lite (no inserted messages / extensions: those depend on    *)
+(*             the receiver's state and message kind, which another case   *)
+(*             with the same kind of flight already covers)]               *)
 (*   docs:    [name, kind (json|map), doc (tagged JSON tree)]              *)
 (*   hellos:  [name, hs (ClientHello bytes)]  -> tlsfingerprint.io maps    *)
 (*   opt:     [classes, inserts, docclasses]  (what this tier enumerates)  *)
@@ -54,9 +57,9 @@ MutsAt(c, k, N) ==
   THEN LET b == Flights[c].msgs[k] IN SelectSeq(NodeMutsAll(b, N), LAMBDA x : InFocus(b, N, N[x.n], Flights[c].focus))
   ELSE
   LET b == Flights[c].msgs[k]
-      per == [j \in DOMAIN N |-> LET ms == SelectSeq(NodeMuts(b, N, N[j]), LAMBDA m : Enabled(m.cls))
+      per == [j \in DOMAIN N |-> LET ms == SelectSeq(NodeMuts(b, N, N[j]), LAMBDA m : Enabled(m.cls) /\ ~(Flights[c].lite /\ m.cls = "insertext"))
                                  IN [i \in DOMAIN ms |-> [n |-> j, m |-> ms[i]]]]
-      ins == IF ~Opt.inserts \/ Flights[c].side = "rec" THEN <<>>
+      ins == IF ~Opt.inserts \/ Flights[c].side = "rec" \/ Flights[c].lite THEN <<>>
              ELSE LET all == InsertMuts(b)
                       use == SelectSeq(all, LAMBDA m : k = Len(Flights[c].msgs) \/ m.sp[1].off = 0)
                   IN [i \in DOMAIN use |-> [n |-> 1, m |-> use[i]]]
